@@ -56,6 +56,7 @@ class Tracer:
         self.res_id = {r: i for i, r in enumerate(resources)}
         self.jobid = {}          # real job.id -> model id
         self.jobobj = []
+        self.expr_of = {}
         self.newop_index = {}    # model id -> index in trace of its ONew
         self.first_args = {}     # model id -> evaluated (args, kwargs)
         self.trace = []
@@ -109,6 +110,10 @@ class Tracer:
                 T.jobobj.append(job)
                 T.newop_index[mid] = len(T.trace)
                 T.first_args[mid] = eval_args   # (args, kwargs) as first evaluated (jobs are cleared later)
+                try:                            # (parent job, hash of the expression this job evaluates)
+                    T.expr_of[mid] = (job.parent_job.id if job.parent_job else None, job.expr.get_hash())
+                except Exception:  # noqa
+                    T.expr_of[mid] = None
                 T.emit(["ONew", mid])        # parameters filled in after the run
             T.labels.append(("exec", T.jobid[job.id]))
             return orig_exec_job(job, eval_args, *more, **kw)
